@@ -373,6 +373,15 @@ def _cases(tier: str, seed: int, *, kinds=("norm", "floor")) -> list[dict]:
             for pd, d2s in (("yes", "none"), ("no", "yes"), ("yes", "no")):
                 ev.append({"a": "Normalize", "pd": pd, "d2s": d2s, "via": "accessor" if len(ev) % 2 else "function"})
             out.append({"src": "gen", "world": w, "events": ev})
+    # a mesh whose topology names an edge dimension that no variable uses (edges are optional)
+    wq = make_world("ugrid", rng, two=True, K=3)
+    wq["enc"] = dict(wq.get("enc") or {}, edge_dim="declared", supplied=[])
+    ev = [{"a": "Touch", "via": "accessor"}]
+    if "norm" in kinds:
+        ev += [{"a": "Normalize", "pd": "yes", "d2s": "no", "via": "accessor"}, {"a": "Normalize", "pd": "no", "d2s": "yes", "via": "accessor"}]
+    if "floor" in kinds:
+        ev += [{"a": "OceanFloor", "via": "accessor"}]
+    out.append({"src": "gen", "world": wq, "events": ev})
     # three depth coordinates, two of them on one dimension and listed before the third
     for conv in [c for c in W.ALL_CONVS if c not in DEPTH_NAMES]:
         for rep in range(1 if tier == "quick" else 3):
